@@ -118,7 +118,7 @@ func vrDumpDisk(slock *SLock, dir string, out *bufio.Writer) {
 		names = append(names, rewriteFile)
 	}
 	names = append(names, appendFiles...)
-	err, _ = aof.LoadAofFiles(names, 0, func(filename string, aofFile *AofFile, a *AofLock, firstLock bool) (bool, error) {
+	err, _ = aof.LoadAofFiles(names, -1, func(filename string, aofFile *AofFile, a *AofLock, firstLock bool) (bool, error) {
 		islock := 0
 		if a.CommandType == protocol.COMMAND_LOCK {
 			islock = 1
